@@ -144,6 +144,22 @@ def decorate(text, rng, p=3):
     return nl.join(out)
 
 
+def decorate_attr(text, rng, p=2):
+    """one to three `//` comment lines between an attribute line ([deprecated(..)], [opcode(..)], [flags]) and what it decorates (1/p of those
+    lines): a formatter that reorders a comment and an attribute has to reach a fixed point in one pass (C17) and keep the File (C16).
+    Texts the parser rejects in this form are dropped by the caller (only accepted texts are formatted)."""
+    nl = "\r\n" if "\r\n" in text else "\n"
+    out = []
+    for line in text.split(nl):
+        out.append(line)
+        st = line.strip()
+        if st.startswith("[") and st.endswith("]") and rng.below(p) == 0:
+            ind = line[:len(line) - len(line.lstrip())]
+            for k in range(1 + rng.below(3)):
+                out.append(ind + "// " + rng.choice(["after the attribute", "use x instead", "went away in v2", "@tag(\"a\")"]) + " %d" % k)
+    return nl.join(out)
+
+
 def effective(items, L):
     """the AST the text of layout L actually states: one-line bodies carry no per-field / per-member comments"""
     if not L.oneline:
